@@ -31,7 +31,7 @@ Qed.
 
 Lemma sm_new_get : forall (V : Type) k, sm_get (@sm_new V) k = None.
 Proof.
-  intros V k. unfold sm_get, slot_at, sm_new; cbn [slots].
+  intros V k. unfold sm_get. rewrite slot_at_eq. unfold sm_new; cbn [slots].
   destruct (N.to_nat (kidx k)) as [|[|n]]; cbn; [destruct (kver k)|..]; reflexivity.
 Qed.
 
